@@ -91,6 +91,7 @@ type parserExec struct {
 
 	c11Blocks, c11MLM, c11Mixed, c11AfterRebuild int
 	c12Matches, c12AfterRebuild, c12AfterCut     int
+	runBlocks, runBlocksAfterShrink              int
 
 	keepBlocks bool
 	blocks     []blockRec
